@@ -515,11 +515,11 @@ func c12IgnoredThenQueries(c *Ctx, r *Rng, kind string) {
 			var d []byte
 			switch r.Intn(4) {
 			case 0: // a stray 12-octet response
-				d = buildMsgWire(uint16(r.U64()), 0x8000, nil, nil, nil, nil)
+				d = buildMsgWire(uint16(40000+r.Intn(20000)), 0x8000, nil, nil, nil, nil)
 			case 1: // unsupported opcode (UPDATE = 5): NOTIMP
-				d = buildMsgWire(uint16(r.U64()), 5<<11, nil, nil, nil, nil)
+				d = buildMsgWire(uint16(40000+r.Intn(20000)), 5<<11, nil, nil, nil, nil)
 			case 2: // QDCOUNT 0 in a query: FORMERR
-				d = buildMsgWire(uint16(r.U64()), 0, nil, nil, nil, nil)
+				d = buildMsgWire(uint16(40000+r.Intn(20000)), 0, nil, nil, nil, nil)
 			default: // shorter than a header
 				d = r.Bytes(1 + r.Intn(11))
 			}
@@ -542,20 +542,30 @@ func c12IgnoredThenQueries(c *Ctx, r *Rng, kind string) {
 			}
 			qb, _ := q.Pack()
 			conn.Write(qb)
-			conn.SetReadDeadline(time.Now().Add(2 * time.Second))
-			n, err := conn.Read(buf)
 			total++
 			got := "no reply"
 			want := fmt.Sprintf("%d %x", len(qb), qb[:min(len(qb), 200)])
-			if err == nil {
+			// read until the reply to this query is there: late replies to rejected datagrams are skipped
+			deadline := time.Now().Add(3 * time.Second)
+			for time.Now().Before(deadline) {
+				conn.SetReadDeadline(deadline)
+				n, err := conn.Read(buf)
+				if err != nil {
+					break
+				}
 				var rm dns.Msg
-				if e := rm.Unpack(buf[:n]); e != nil {
+				e := rm.Unpack(buf[:n])
+				if e == nil && rm.Id != q.Id {
+					continue
+				}
+				if e != nil {
 					got = "undecodable reply"
-				} else if rm.Id != q.Id || rm.Rcode != dns.RcodeSuccess || len(rm.Question) != 1 || rm.Question[0].Name != q.Question[0].Name || len(rm.Answer) != 1 {
+				} else if rm.Rcode != dns.RcodeSuccess || len(rm.Question) != 1 || rm.Question[0].Name != q.Question[0].Name || len(rm.Answer) != 1 {
 					got = fmt.Sprintf("id=%d rcode=%d questions=%d answers=%d", rm.Id, rm.Rcode, len(rm.Question), len(rm.Answer))
 				} else {
 					got = strings.Join(rm.Answer[0].(*dns.TXT).Txt, "")
 				}
+				break
 			}
 			if got != want {
 				bad++
